@@ -36,7 +36,18 @@ def _gen_from(rnd):
         new = old
     else:
         new = RL.mutate(rnd, ctx, old, 0.3)
-    return {"vendor": vendor, "rules": rules, "old": RL.plain(old), "new": RL.plain(new)}
+    old, new = RL.plain(old), RL.plain(new)
+    if rnd.chance(30):
+        # several lines of one rule WITHOUT a key placeholder ('port trunk allow-pass vlan 10', '... vlan 20'): they share the key ()
+        keyless = [r for r in rules if not r["children"] and not r.get("glob") and not any(t in ("*", "~") or t.startswith("*/") for t in r["toks"])
+                   and not r.get("ordered") and not r.get("rewrite") and r.get("logic") is None and not r.get("icase")]
+        if keyless:
+            r = rnd.choice(keyless)
+            head = " ".join(r["toks"])
+            for side in (old, new):
+                for _ in range(rnd.randint(0, 3)):
+                    side.setdefault(head + " v" + str(rnd.randint(1, 5)), {})
+    return {"vendor": vendor, "rules": rules, "old": old, "new": new}
 
 
 @st.composite
